@@ -9,7 +9,7 @@ from mc import core, ghost
 
 PROPERTY = 'C04'
 LEVEL = 'model_checking'
-RULE = ('every program = (0-3 handlers of event e with distinct priorities drawn from 12 shapes: return v / return None / raise / '
+RULE = ('every program = (0-3 handlers of event e with distinct priorities drawn from 16 shapes: return v / return 0 / return None / raise / return a nested Value / '
         'generator yielding 0-2 values (None or not) / generator raising at step 0 or 1) x (success, failure, notify, '
         'success_channels) x (optional nested event fired by a handler | the event fired twice: after the first settled / both in flight); each program executed once, driven by tick() to '
         'quiescence; non-trivial = at least two different handler shapes or a raising/generator handler; distinct = distinct program')
@@ -38,10 +38,12 @@ def shapes(i):
         ('GvX', ('gen', [('y', b + 7), ('raise',)])),
         ('RVok', [('retfire', 'gok')]),      # returns the Value of a nested event whose handler returns a value
         ('RVx', [('retfire', 'gx')]),        # ... whose handler raises (that is not a raise of THIS event's handler)
+        ('R0', [('ret', 0)]),                # falsy results are results (only None means "no result")
+        ('G0v', ('gen', [('y', 0), ('y', b + 5)])),
     ]
 
 
-NSH = 14
+NSH = 16
 FLAGS = [dict(success=s, failure=f, notify=n, success_channels=sc)
          for s in (False, True) for f in (False, True) for n in (False, True) for sc in (None, ('other',))]
 NESTED_SHAPES = [0, 2, 5, 10]   # R, X, Gv, GX1 for the nested event's handlers
@@ -224,7 +226,7 @@ def _work(part, nparts, payload):
         bad = judge(program, w, e, s, quiescent, crashed)
         st.outcome(tuple(x for x in w.log if x[0] in ('obs', 'val')))
         hs = program[0]
-        if any(si >= 12 for si in hs):
+        if any(si in (12, 13) for si in hs):
             st.counters['programs_returning_a_nested_value'] += 1
         if len(set(hs)) > 1 or any(si >= 2 for si in hs):
             st.interesting(program)
